@@ -159,7 +159,7 @@ def _rows_job(job):
             a, b = o
             r["a"], r["b"] = a, b
             x, y = mk(a), mk(b)
-            if a == b and (len(rows) % 2):          # every other time the SAME object on both sides (x / x, x - x)
+            if a == b and (len(rows) % 2 or not any(a)):   # the SAME object on both sides (x / x, x - x): every other time, and always for zero
                 y = x
             r["r"] = pr(_safe({"add": lambda: x + y, "sub": lambda: x - y, "mul": lambda: x * y,
                                "div": lambda: x / y}[op]))
